@@ -5,7 +5,7 @@ CONSTANTS
   MaxTime = 4
   TickSteps = {1, 2}
   MaxClk = 100
-  ExpireCmp = ">="
-  Depth = 6
+  FixOnRefresh = TRUE
+  Depth = 5
 INVARIANT Emit
 CHECK_DEADLOCK FALSE
